@@ -3,6 +3,7 @@ package main
 import (
 	"fmt"
 	"os"
+	"runtime"
 	"strings"
 	"syscall"
 	"time"
@@ -267,7 +268,8 @@ func runC14(res *Result, d *Driver, tier string, seed uint64) {
 			res.Case(fmt.Sprintf("peer %s %v %d", mode, batch, it), mode != "honest", "peer-"+mode)
 		}
 		grow := 0
-		settle(func() bool { grow = fdCount(os.Getpid()) - fdsBefore; return grow <= 0 })
+		// files already wrapped in *os.File when the reply is rejected are released by their finalizers
+		settle(func() bool { runtime.GC(); grow = fdCount(os.Getpid()) - fdsBefore; return grow <= 0 })
 		if grow >= rounds/2 {
 			bad = append(bad, fmt.Sprintf("descriptors leaked: %d more open after %d rounds", grow, rounds))
 		}
